@@ -50,6 +50,18 @@ impl RE {
     })
   }
 }
+impl RE {
+  /// a `from_iter` program over PIECES that renders to `s` when `s` can be tiled greedily by pieces (else `from_iter([])` appended with nothing: caller compares flat strings anyway)
+  pub fn clone_with_text(&self, s: &str) -> RE {
+    let mut out = vec![]; let mut rest = s;
+    'outer: while !rest.is_empty() {
+      for (i, p) in PIECES.iter().enumerate() { if !p.is_empty() && p.chars().count() == 1 && rest.starts_with(p) { out.push(i); rest = &rest[p.len()..]; continue 'outer; } }
+      for (i, p) in PIECES.iter().enumerate() { if !p.is_empty() && rest.starts_with(p) { out.push(i); rest = &rest[p.len()..]; continue 'outer; } }
+      break;
+    }
+    RE::Iter(out)
+  }
+}
 pub fn flat_lines(s: &str) -> Vec<String> {
   let mut v: Vec<String> = s.split_inclusive('\n').map(|x| x.to_string()).collect();
   if s.is_empty() || s.ends_with('\n') { v.push(String::new()); }
@@ -154,6 +166,18 @@ pub fn gen(rng: &mut Rng, thorough: bool) -> RopeCase {
   if rng.chance(3) {
     // pairs: often the same text chunked differently
     let a = { let k = 1 + rng.below(max); gen_expr(rng, k) };
+    if rng.chance(4) {
+      // prefixes cut out of a rope with empty pieces inside: the cut leaves leading / trailing empty pieces in the operand
+      if let Some(s) = a.flat() {
+        let pad = |e: RE, rng: &mut Rng| RE::Append(Box::new(e), Box::new(RE::Append(Box::new(RE::From(0)), Box::new(RE::From(1 + rng.below(PIECES.len() - 2))))));
+        let padded = pad(a.clone(), rng);
+        let bs: Vec<usize> = (0..=s.len()).filter(|i| s.is_char_boundary(*i)).collect();
+        let k = if rng.chance(2) { s.len() } else { bs[rng.below(bs.len())] };
+        let q = RE::Slice(Box::new(padded), 0, k);
+        let p = match rng.below(3) { 0 => a.clone(), 1 => RE::Iter(vec![]).clone_with_text(&s), _ => RE::Append(Box::new(RE::Iter(vec![])), Box::new(a.clone())) };
+        return if rng.chance(2) { RopeCase::Pair(p, q) } else { RopeCase::Pair(q, p) };
+      }
+    }
     let c = if rng.chance(2) { match a.flat() { Some(s) if !s.is_empty() => { let bs: Vec<usize> = (0..=s.len()).filter(|i| s.is_char_boundary(*i)).collect(); let k = bs[rng.below(bs.len())];
         // re-chunk through slicing the same rope
         RE::Append(Box::new(RE::Slice(Box::new(a.clone()), 0, k)), Box::new(RE::Slice(Box::new(a.clone()), k, s.len()))) } _ => { let k = 1 + rng.below(max); gen_expr(rng, k) } } } else { { let k = 1 + rng.below(max); gen_expr(rng, k) } };
@@ -168,6 +192,8 @@ pub fn corpus() -> Vec<RopeCase> {
     RopeCase::Obs(RE::Append(Box::new(RE::New), Box::new(RE::Iter(vec![])))),
     // Light.starts_with(Full) proper prefix
     RopeCase::Pair(RE::From(3), RE::Iter(vec![1])),
+    // F14: Full.starts_with(Full whose last piece is empty): from_iter(["a"]) vs ("a" ++ ("" ++ "b")).byte_slice(0..1)
+    RopeCase::Pair(RE::Iter(vec![1]), RE::Slice(Box::new(RE::Append(Box::new(RE::From(1)), Box::new(RE::Append(Box::new(RE::From(0)), Box::new(RE::From(2)))))), 0, 1)),
     // Full == Full with multi-byte pieces chunked differently
     RopeCase::Pair(RE::Iter(vec![7, 8]), RE::Append(Box::new(RE::Slice(Box::new(RE::Iter(vec![7, 8])), 0, 2)), Box::new(RE::Slice(Box::new(RE::Iter(vec![7, 8])), 2, 5)))),
   ]
